@@ -515,6 +515,77 @@ class Add11Refile(Contract):
         raise NotImplementedError
 
 
+
+class Add11RefileAny(Contract):
+    """Images._add_1_1 for a document whose variant lists ANY number of arches (witness rule, pyvc/anycoll.py; add() is the recorded callee
+    contract, so the loop body has no effect of its own): for a 'src' image, add(variant, w, image) is called for the ARBITRARY arch key w of
+    that variant unless w is 'src' -- i.e. for every binary arch of the variant --, never with arch 'src', never for another variant or
+    image; any other arch is added exactly once under itself."""
+    name = "productmd.images.Images._add_1_1[variant with any number of arches]"
+    key = "meth:images.Images._add_1_1:any"
+
+    def __init__(self, src, T):
+        self.src, self.T = src, T
+
+    def setup(self, E):
+        from pyvc.anycoll import AnyDict
+        m = E.instantiate(("images", "Images"))
+        var = SV(sym.Val.VStr(z3.Const("arg.variant", sym.S)))
+        arch = SV(sym.Val.VStr(z3.Const("arg.arch", sym.S)))
+        arches = AnyDict("doc.arches", lambda E_, key, tag: [])
+        imgs = AnyDict("doc.images", lambda E_, key, tag: arches)
+        payload = E.models.new_dict("doc.payload")
+        payload.entries.append(Entry("images", True, imgs))
+        data = E.models.new_dict("doc")
+        data.entries.append(Entry("payload", True, payload))
+        image = E.instantiate(("images", "Image"), [m])
+        calls = []
+
+        def add(E_, o, args, kwargs):
+            calls.append(tuple(args))
+            return None
+        E.summaries[(("images", "Images"), "add")] = add
+        return {"m": m, "data": data, "var": var, "arch": arch, "arches": arches, "imgs": imgs, "image": image, "calls": calls}
+
+    def call(self, E, st):
+        try:
+            return E.call(E.getattr_(st["m"], "_add_1_1"), [st["data"], st["var"], st["arch"], st["image"]])
+        finally:
+            E.summaries.pop((("images", "Images"), "add"), None)
+
+    def post(self, E, st, out):
+        is_src = eq(st["arch"], "src")
+        if out.kind == "raise":
+            # only a variant missing from the document may fail (KeyError), and only on the src path
+            return {"refiling_fails_only_for_a_variant_missing_from_the_document": And(is_src, out.exc_cls is KeyError)}
+        calls = st["calls"]
+        wit = [(kind, x) for kind, c, x in getattr(E.path, "witnesses", []) if c is st["arches"]]
+        all_for_this = all(c[0] is st["var"] and c[2] is st["image"] for c in calls)
+        arches = [c[1] for c in calls]
+        if wit:
+            kind, w = wit[-1]
+            # normal termination of the scan: the arbitrary arch key w got its add unless it is 'src'; an empty table has no witness
+            if w is None:
+                src_case = len(calls) == 0
+            else:
+                src_case = And(Implies(Not(eq(w, "src")), len(calls) == 1 and _veq(arches[0], w) if calls else False),
+                               Implies(eq(w, "src"), len(calls) == 0))
+            src_case = And(kind == "all", src_case)
+        else:
+            src_case = False
+        bin_case = (len(calls) == 1 and _veq(arches[0], st["arch"])) if not wit else False
+        return {"adds_same_image_under_same_variant_only": all_for_this,
+                "src_goes_under_every_binary_arch_of_the_variant": Implies(is_src, src_case),
+                "binary_arch_is_added_once_under_itself": Implies(Not(is_src), bin_case),
+                "nothing_is_added_under_src": And(*[Not(eq(x, "src")) for x in arches]) if arches else True}
+
+    def concretise(self, model, st):
+        return None
+
+    def native_eval(self, inputs):
+        raise NotImplementedError
+
+
 class ImagesRoundTrip(Contract):
     """Images.serialize + Images.deserialize on the manifests  {V1: {A: {I1, I2}}, V2: {A: {I1}}}  (I1 the SAME object under two cells) and
     {V1: {A: {I1}}, V2: {A: {I3}}}  (two images whose paths may coincide): variants, arch and all fifteen attributes of every image symbolic.  Every cell is read back under the same variant/arch with exactly the
@@ -1023,5 +1094,5 @@ def ast_only_writer(run, src, module, cls, attr, allowed):
 
 
 def contracts(src, T):
-    return [ImagesAdd(src, T, 0), ImagesAdd(src, T, 1), ImagesAdd(src, T, 2), IdentifyObjEqDict(src, T), Add11Refile(src, T), ImagesRoundTrip(src, T), ImagesEmptyCell(src, T), ImagesAddAny(src, T), ImagesWriteValidates(src, T)] + \
+    return [ImagesAdd(src, T, 0), ImagesAdd(src, T, 1), ImagesAdd(src, T, 2), IdentifyObjEqDict(src, T), Add11Refile(src, T), Add11RefileAny(src, T), ImagesRoundTrip(src, T), ImagesEmptyCell(src, T), ImagesAddAny(src, T), ImagesWriteValidates(src, T)] + \
         [ImageReaderValid(src, T, k, mode) for k in IMAGE_FIELDS for mode in ("corrupt", "delete")]
